@@ -554,6 +554,13 @@ func (obj *Package) Undefine(name string) {
 	obj.mu.Lock()
 	if obj.funcs != nil {
 		delete(obj.funcs, name)
+		for _, u := range obj.Users {
+			u.mu.Lock()
+			if xf := u.funcs[name]; xf != nil && xf.Pkg == obj {
+				delete(u.funcs, name)
+			}
+			u.mu.Unlock()
+		}
 	}
 	obj.mu.Unlock()
 	pname := fmt.Sprintf("%s:%s", obj.Name, name)
